@@ -157,6 +157,9 @@ class ATSPEnv(RL4COEnvBase):
     @staticmethod
     def check_solution_validity(td: TensorDict, actions: torch.Tensor):
         assert (
+            actions.size(1) == td["cost_matrix"].size(-1)
+        ), "Invalid tour: wrong number of nodes"
+        assert (
             torch.arange(actions.size(1), out=actions.data.new())
             .view(1, -1)
             .expand_as(actions)
